@@ -490,7 +490,8 @@ def emit(abcs, dispatch, kernels, flags):
     o = []
     o.append("(* GENERATED by translate/encode_abc.py from /repo/lightmotif/src/{abc.rs,pli/dispatch.rs,")
     o.append("   pli/platform/avx2.rs,pli/platform/sse2.rs} on every run -- do not edit. *)")
-    o.append("From Coq Require Import List NArith Byte.")
+    o.append("From Coq Require Import List NArith.")
+    o.append("From Coq.Strings Require Import Byte.")
     o.append("From LMEncode Require Import EncodeModel.")
     o.append("Import ListNotations.")
     o.append("Local Open Scope N_scope.")
